@@ -2,5 +2,5 @@ CONSTANTS
   MaxLen = 7
 INIT Init
 NEXT Next
-INVARIANTS TypeOK LineAgrees Emit
+INVARIANTS FamilyOK TypeOK LineAgrees Emit
 CHECK_DEADLOCK FALSE
